@@ -17,9 +17,6 @@ Definition par_sites : list par_site :=
   {| ps_file := "algorithms/centrality/closeness.rs"; ps_fn := "closeness_centrality"; ps_via := ""; ps_entry := "into_par_iter";
      ps_src := SrcRange; ps_adaptors := ["map"]; ps_sink := SinkCollectVec;
      ps_post := [PostSeqFor]; ps_shared := [] |};
-  {| ps_file := "algorithms/centrality/closeness.rs"; ps_fn := "get_node_centrality"; ps_via := ""; ps_entry := "par_iter";
-     ps_src := SrcVec; ps_adaptors := ["map"]; ps_sink := (SinkOther "sum");
-     ps_post := [(PostOther "other:if_>"); (PostOther "other:/_;")]; ps_shared := [] |};
   {| ps_file := "algorithms/shortest_path/dijkstra.rs"; ps_fn := "all_pairs"; ps_via := "all_pairs_par_iter"; ps_entry := "into_par_iter";
      ps_src := SrcVec; ps_adaptors := ["map"]; ps_sink := SinkCollectResultVec;
      ps_post := [PostSeqIter]; ps_shared := [] |};
@@ -31,7 +28,7 @@ Definition par_sites : list par_site :=
 Definition par_thresholds : list (string * Z) := [("all_pairs", 20%Z); ("betweenness_centrality", 20%Z); ("closeness_centrality", 20%Z); ("multi_source", 20%Z)].
 
 (* (caller, callee): crate functions calling a function that has a parallel site *)
-Definition par_callers : list (string * string) := [("closeness_centrality", "get_node_centrality"); ("get_all_shortest_paths_involving", "all_pairs")].
+Definition par_callers : list (string * string) := [("get_all_shortest_paths_involving", "all_pairs")].
 
 (* crate-wide scans *)
 Definition unsafe_hits : list string := [].
